@@ -341,6 +341,8 @@ def _vector_store(eng, base, idx, val):
     """`a[idx] = scalar` on a 1-D array of symbolic length, idx a boolean mask of the same length or an integer index array / list:
     exactly the selected cells get the value, every other cell keeps its content (numpy: repeated positions are harmless for a
     scalar).  Positions must lie in [0, len(a)) (safety obligation; negative positions are not modelled)."""
+    from .models import norm_index
+
     if base.kind == "int" and kind_of(val) == "real":
         raise Unsupported("store of a real into an int array")
     vz, old, n = to_z3(val, base.kind), base.arr, base.nz()
